@@ -7,6 +7,7 @@ import (
 
 	"verif/mon/internal/ev"
 	"verif/mon/internal/gen"
+	"verif/mon/internal/ref"
 )
 
 // C01 — Satisfies returns the Boolean truth of the expression under the allowed list.
@@ -66,7 +67,54 @@ func judgeSat(c *Ctx, mc *matchCache, tc *TreeCase, allowed []string) {
 	}
 }
 
+// judgeBig judges one large-scale case: leaf truth from the matching model (C02's reference), evaluation by the tree.
+func judgeBig(c *Ctx, bc *BigCase) {
+	u := c.U
+	dens := make([]gen.Den, len(bc.Allowed))
+	for i, a := range bc.Allowed {
+		dens[i] = a.Denote(u)
+	}
+	tau := make([]bool, len(bc.Terms))
+	for i, t := range bc.Terms {
+		dt := t.Denote(u)
+		for _, da := range dens {
+			switch ref.Match(u, dt, da) {
+			case ref.Yes:
+				tau[i] = true
+			case ref.Ambiguous:
+				c.Inc("big_cases_skipped_ambiguous_table_id")
+				return
+			}
+			if tau[i] {
+				break
+			}
+		}
+	}
+	want := bc.Tree.Eval(tau)
+	allowed := termTexts(bc.Allowed)
+	got := c.Sat(string(bc.Text), allowed)
+	c.Inc("big_" + strings.ReplaceAll(bc.Mode, "-", "_"))
+	c.CountIf(want, "big_expected_true")
+	c.CountIf(!want, "big_expected_false")
+	c.Max("big_distinct_terms", int64(len(bc.Terms)))
+	c.Max("big_allowed_entries", int64(len(bc.Allowed)))
+	c.Distinct(gen.HashStr("big", string(bc.Text), strings.Join(allowed, "\x00")))
+	if !got.Clean() || got.OK != want {
+		c.Violation("eval-big:"+bc.Mode, "C01.big", bc, "Satisfies(<%d distinct terms>, <%d allowed entries>) = %s, the Boolean reading under the matching model gives %v; expression starts %q, list starts %q",
+			len(bc.Terms), len(bc.Allowed), got, want, trunc(string(bc.Text), 120), allowed[:imin(4, len(allowed))])
+	}
+}
+
 func replayC01(c *Ctx, rule string, raw json.RawMessage) {
+	if rule == "C01.big" {
+		var bc BigCase
+		if err := json.Unmarshal(raw, &bc); err != nil {
+			fmt.Println("bad case:", err)
+			return
+		}
+		judgeBig(c, &bc)
+		return
+	}
 	var sc SatCase
 	if err := json.Unmarshal(raw, &sc); err != nil {
 		fmt.Println("bad case:", err)
@@ -201,6 +249,10 @@ func runC01(c *Ctx, phase string) {
 	c.Floor("expected_false", 1000)
 	c.Floor("trees_or_under_and_under_or", 1)
 	c.Floor("long_allowed_lists", 100)
+	c.Floor("big_many_terms", 100)
+	c.Floor("big_long_list", 100)
+	c.Floor("big_expected_true", 50)
+	c.Floor("big_expected_false", 50)
 	c.Floor("trees_with_64plus_alternatives", 20)
 	for _, s := range []string{"left_chain", "right_chain", "balanced", "or_and_or", "andchain_x_or", "random", "long_chain"} {
 		c.Floor("shape_"+s, 10)
@@ -249,6 +301,13 @@ func runC01(c *Ctx, phase string) {
 					}
 				}
 			}
+		}
+	}
+	// (iii) large scale: 65..160 distinct terms, or 256..700 allowed entries (leaf truth from the matching model)
+	nBig := c.Pick(600, 6000)
+	for i := 0; i < nBig; i++ {
+		if c.Mine(i) {
+			judgeBig(c, genBigCase(c, "C01", i))
 		}
 	}
 	// (ii) random trees
